@@ -282,7 +282,7 @@ class AdiabaticMD:
         last_acceleration = self.force(last_electronics) / self.mass
         this_acceleration = self.force(this_electronics) / self.mass
 
-        self.last_velocity = self.velocity
+        self.last_velocity = np.copy(self.velocity)
         self.velocity += 0.5 * (last_acceleration + this_acceleration) * self.dt
 
     def simulate(self) -> 'Trace':
